@@ -422,7 +422,8 @@ GRID = [k / 4.0 for k in range(-4, 5)]
 
 def random_tau(rng, n, level, kind):
     """boundary-biased synthetic tau matrix (n x n).  level 0: symmetric (as X.corr gives); deeper: asymmetric with
-    NaN cells (as get_tau_matrix leaves them).  kind: 'grid' (many ties), 'distinct', 'nanvar' (NaN row+column), 'sparse'."""
+    NaN cells (as get_tau_matrix leaves them).  kind: 'grid' (many ties), 'few' (three values only), 'distinct', 'nanvar' (NaN row+column),
+    'sparse' (NaN cells)."""
     m = np.ones((n, n))
     sym = level == 0 and rng.random() < 0.9
     vals = rng.permutation(np.arange(1, 4 * n * n + 1))[: n * n] / float(4 * n * n + 2)
@@ -432,6 +433,8 @@ def random_tau(rng, n, level, kind):
                 continue
             if kind == 'distinct':
                 v = vals[i * n + j] * (1 if rng.random() < 0.5 else -1)
+            elif kind == 'few':
+                v = (0.25, 0.5, -0.5)[int(rng.integers(0, 3))]
             else:
                 v = GRID[int(rng.integers(0, len(GRID)))]
                 if rng.random() < 0.15:
